@@ -96,10 +96,27 @@ import (
 	"encoding/json"
 	"fmt"
 	"os"
+	"runtime"
+	"strconv"
 	"strings"
+	"sync"
+	"sync/atomic"
+	"time"
 
 	"github.com/tormoder/fit"
 )
+
+var full32 int
+var partial []string
+var deadline = func() time.Time {
+	d := 45 * time.Minute
+	if len(os.Args) > 2 {
+		if x, err := time.ParseDuration(os.Args[2]); err == nil {
+			d = x
+		}
+	}
+	return time.Now().Add(d)
+}()
 
 type cst struct {
 	Name string
@@ -155,6 +172,70 @@ func main() {
 			for v := uint64(0); v < 1<<uint(t.Bits); v++ {
 				check(v)
 			}
+		case t.Bits == 32 && len(os.Args) > 1 && os.Args[1] == "full32" && !time.Now().After(deadline):
+			// thorough tier: all 2^32 values, in parallel ranges (String methods are pure functions of the value)
+			t0 := time.Now()
+			var cut int32
+			nw := runtime.NumCPU()
+			var wg sync.WaitGroup
+			var mu sync.Mutex
+			for k := 0; k < nw; k++ {
+				wg.Add(1)
+				go func(k int) {
+					defer wg.Done()
+					lo, hi := uint64(k)<<32/uint64(nw), uint64(k+1)<<32/uint64(nw)
+					var ev, di int64
+					buf := make([]byte, 0, 64)
+					for v := lo; v < hi; v++ {
+						if v&0xFFFFF == 0 && time.Now().After(deadline) {
+							atomic.StoreInt32(&cut, 1)
+							break
+						}
+						got := t.Str(v)
+						ev++
+						ok := false
+						want := ""
+						if ns, has := names[v]; has {
+							di++
+							want = strings.Join(ns, "|")
+							for _, n := range ns {
+								if got == n {
+									ok = true
+								}
+							}
+						} else {
+							buf = append(buf[:0], t.Name...)
+							buf = append(buf, '(')
+							buf = strconv.AppendUint(buf, v, 10)
+							buf = append(buf, ')')
+							ok = got == string(buf)
+							if !ok {
+								want = string(buf)
+							}
+						}
+						if !ok {
+							mu.Lock()
+							nviol++
+							if len(viols) < 20 {
+								viols = append(viols, viol{t.Name, v, got, want})
+							}
+							mu.Unlock()
+						}
+					}
+					mu.Lock()
+					evals += ev
+					distinct += di
+					mu.Unlock()
+				}(k)
+			}
+			wg.Wait()
+			if cut == 0 {
+				full32++
+				fmt.Fprintf(os.Stderr, "%s: all 2^32 values in %v\n", t.Name, time.Since(t0).Round(time.Second))
+			} else {
+				partial = append(partial, t.Name)
+			}
+			fallthrough
 		default:
 			seen := map[uint64]bool{}
 			max := uint64(1)<<uint(t.Bits) - 1
@@ -187,7 +268,7 @@ func main() {
 			}
 		}
 	}
-	json.NewEncoder(os.Stdout).Encode(map[string]interface{}{"evals": evals, "distinct": distinct, "nviol": nviol, "viols": viols, "types": len(typs)})
+	json.NewEncoder(os.Stdout).Encode(map[string]interface{}{"evals": evals, "distinct": distinct, "nviol": nviol, "viols": viols, "types": len(typs), "full32": full32, "partial": partial})
 }
 `
 
@@ -220,7 +301,7 @@ func init() {
 		ID:      "C20",
 		Level:   "exploration",
 		Workers: 1,
-		Rule: "every integer type declared in types.go (extracted with go/types) and every constant of it: a generated program calls String() on all 256 values of 8-bit types, all 65536 values of 16-bit types, and for wider types on every constant and its neighbours, every value below 2^16, every power of two and its neighbours, and values sharing their low 16 bits with a constant; expected = constant name without the type prefix (any of the names sharing the value), otherwise Type(n). " +
+		Rule: "every integer type declared in types.go (extracted with go/types) and every constant of it: a generated program calls String() on all 256 values of 8-bit types, all 65536 values of 16-bit types, and for wider types on every constant and its neighbours, every value below 2^16, every power of two and its neighbours, and values sharing their low 16 bits with a constant (thorough tier: all 2^32 values of every 32-bit type); expected = constant name without the type prefix (any of the names sharing the value), otherwise Type(n). " +
 			"Regeneration: the repository's fitstringer is run (through a driver placed by build overlay) on the sorted type list of types.go and its output compared byte-for-byte with the checked-in types_string.go. distinct = values that are named constants",
 		Assumptions: []string{"Bool (types_man.go) is hand-written and outside the statement"},
 		Run:         runC20,
@@ -263,7 +344,15 @@ func runC20(w *vx.W) {
 	if out, err := build.CombinedOutput(); err != nil {
 		w.HarnessError("building the generated String() runner failed: %v\n%s", err, trunc(string(out), 3000))
 	}
-	out, err := exec.Command(filepath.Join(scratch, "runner")).Output()
+	var rargs []string
+	if !w.Quick() {
+		budget := os.Getenv("VX_C20_FULL32_BUDGET")
+		if budget == "" {
+			budget = "45m"
+		}
+		rargs = append(rargs, "full32", budget)
+	}
+	out, err := exec.Command(filepath.Join(scratch, "runner"), rargs...).Output()
 	if err != nil {
 		w.Violation("runner-crash", fmt.Sprintf("calling String() on the enumerated values crashed: %v", err), nil)
 	} else {
@@ -275,7 +364,9 @@ func runC20(w *vx.W) {
 				Val       uint64
 				Got, Want string
 			}
-			Types int
+			Types   int
+			Full32  int
+			Partial []string
 		}
 		if err := json.Unmarshal(out, &res); err != nil {
 			w.HarnessError("runner output: %v", err)
@@ -286,6 +377,10 @@ func runC20(w *vx.W) {
 		}
 		w.Fam("types", int64(res.Types))
 		w.Fam("constants", int64(nconst))
+		w.Fam("32-bit-types-all-2^32-values", int64(res.Full32))
+		if len(res.Partial) > 0 {
+			w.Cap("time budget reached while enumerating all 2^32 values of " + strings.Join(res.Partial, ", ") + " (and the 32-bit types after them): those keep the boundary families only")
+		}
 		for _, v := range res.Viols {
 			w.Violation("string/"+v.Type, fmt.Sprintf("%s(%d).String() = %q, expected %q (%d mismatching values in total)", v.Type, v.Val, v.Got, v.Want, res.Nviol), map[string]interface{}{"type": v.Type, "value": v.Val})
 		}
